@@ -1186,7 +1186,11 @@ class Exec:
     def ev_InitListExpr(self, n, st):
         ct = parse_type(n['type'])
         pod = pod_of(ct.name)
-        items = [self.ev(c, st) for c in n.get('inner', [])]
+        kids = n.get('inner', [])
+        if not kids and n.get('array_filler'):
+            # clang's JSON lists an initialiser list that needs filling as [filler, explicit elements...] under 'array_filler'
+            kids = [c for c in n['array_filler'][1:] if isinstance(c, dict)]
+        items = [self.ev(c, st) for c in kids]
         if pod:
             names = list(POD[pod])
             if len(items) == 1 and isinstance(items[0], StructV):
@@ -1707,7 +1711,7 @@ class Exec:
             v = models.default_construct(self, st, d, ct)
         if isinstance(v, list):
             v = models.from_initlist(self, st, d, ct, v)
-        if isinstance(v, ObjRef) and ct.kind == 'class' and class_kind(ct.name) in ('vector', 'marray') and not isref:
+        if isinstance(v, ObjRef) and ct.kind == 'class' and class_kind(ct.name) in ('vector', 'marray', 'stdarray') and not isref:
             v = models.copy_container(self, st, d, v)
         st.env[vid] = v
         self.logw(('v', vid))
@@ -1887,8 +1891,13 @@ class Exec:
 
         def bind_fn(s_):
             s_.names[lv['id']] = lv.get('name', '')
-            v = self.load(LElem(region, s_.scal[ip].t, '', ect, checked=True), s_)
-            s_.env[lv['id']] = v
+            el = LElem(region, s_.scal[ip].t, '', ect, checked=True)
+            if lv['type']['qualType'].rstrip().endswith('&'):
+                # T& v / const T& v: v IS the element (stores through it reach the container)
+                self.check_index(s_, el)
+                s_.env[lv['id']] = el
+            else:
+                s_.env[lv['id']] = self.load(el, s_)
             self.logw(('v', lv['id']))
             return VoidV()
         cond = {'kind': 'PyExpr', 'fn': cond_fn}
